@@ -75,6 +75,15 @@ func c01Scenario(r *rand.Rand, i int) relayScenario {
 		}
 		sc.Consumers = append(sc.Consumers, p)
 	}
+	if i%8 == 3 {
+		// players that are on the name well before the publisher (two housekeeping ticks pass), of one
+		// protocol family only: whoever waits for a stream must still be there, and be served, when it starts
+		fam := [][]string{{"flv", "wsflv"}, {"rtmp"}, {"wsflv"}, {"flv"}}[(i/8)%4]
+		for k := range sc.Consumers {
+			sc.Consumers[k].Kind = fam[k%len(fam)]
+		}
+		sc.PreDelayMs = 2300
+	}
 	if i%8 == 5 {
 		// a second publisher takes over the name while consumers stay: joiners that arrive between
 		// the two (placed by the Run function at the exact boundary) must get a run of the second
@@ -93,7 +102,7 @@ func scenarioDesc(sc relayScenario) map[string]interface{} {
 		cons = append(cons, fmt.Sprintf("%s@%d..%d", p.Kind, p.JoinAt, p.LeaveAt))
 	}
 	return map[string]interface{}{"rtmp_gop": sc.Conf.RtmpGop, "gop_cap": sc.Conf.RtmpGopCap, "merge_write": sc.Conf.MergeWrite, "flv_gop": sc.Conf.FlvGop,
-		"record": sc.Conf.RecFlv, "push": sc.Push, "push_dead_targets": sc.PushDead, "push_healthy_targets_extra": sc.PushMore, "rtmp_ack_every": sc.AckEvery, "pub_chunk": sc.PubChunk, "shape": sc.Shape.String(), "consumers": cons, "fmt_mode": sc.FmtMode}
+		"record": sc.Conf.RecFlv, "push": sc.Push, "push_dead_targets": sc.PushDead, "push_healthy_targets_extra": sc.PushMore, "rtmp_ack_every": sc.AckEvery, "wait_before_publisher_ms": sc.PreDelayMs, "pub_chunk": sc.PubChunk, "shape": sc.Shape.String(), "consumers": cons, "fmt_mode": sc.FmtMode}
 }
 
 // c01Judge applies the C01 oracle to one consumer history.
@@ -285,7 +294,7 @@ func init() {
 		NumCases:    func(tier string, seed int64) int { return c01Sizes(tier) },
 		CaseTimeout: func(string) time.Duration { return 3 * time.Minute },
 		Rule: "one case = one whole-server scenario: seeded config (rtmp gop_num 0..3 × per-GOP cap {0,1,3,10} × merge_write_size {0,1,1024,8192,65536}, flv gop, recording, relay push to a stub target, in half of those cases next to one or two targets that are down and/or one or two further healthy targets, each of which must get the whole stream); RTMP consumers that acknowledge received bytes (message type 3) every 3 000 / 40 000 bytes in two thirds of the cases, a reference RTMP publisher with its own chunk size and header formats sending 60–400 tagged messages (A/V/metadata with and without @setDataFrame, zero-length messages, lengths around multiples of 4096 and of the publisher's chunk size, timestamps across 0xFFFFFF / 2^32 / non-monotonic / one forward jump of ≥ 0xFFFFFF ms which a third of the publishers send as a format-1 delta with the extended timestamp field), 3–7 RTMP / HTTP-FLV / WS-FLV consumers joining and leaving at seeded message indices (exact admission index via the stream hook's processed-count clock). " +
-			"one case in eight adds a second publisher taking over the name, with RTMP/FLV/WS-FLV joiners placed exactly between the two: none of their items may be a message of the first publisher. oracle per consumer: every item matches a published message (content hash), same type and ms timestamp, items published after admission form one contiguous in-order run without duplicates that starts no later than the first deliverable key frame and ends at the publisher's last message (RTMP: minus < merge_write_size). cell = consumer kind × config cell × join class.",
+			"one case in eight has players of one protocol family only that wait on the name for two housekeeping ticks before the publisher arrives; one case in eight adds a second publisher taking over the name, with RTMP/FLV/WS-FLV joiners placed exactly between the two: none of their items may be a message of the first publisher. oracle per consumer: every item matches a published message (content hash), same type and ms timestamp, items published after admission form one contiguous in-order run without duplicates that starts no later than the first deliverable key frame and ends at the publisher's last message (RTMP: minus < merge_write_size). cell = consumer kind × config cell × join class.",
 		Assumptions: []string{"reference RTMP client/chunk codec, FLV and WebSocket parsers (harness/ref)", "publisher is paced so that no 1024-entry consumer queue can fill (no back-pressure)",
 			"the stream hook's OnMsg is called inside lal's fan-out critical section (read from the code); used only as a clock"},
 		MinCells: 10,
